@@ -35,7 +35,8 @@ type csEffect struct {
 	Kind  string // store | mapupdate | sort
 }
 
-// baseFresh: the object written is allocated in this very function (composite literal / new).
+// baseFresh: the object written is allocated in this very function (composite
+// literal / new) or was just returned by a constructor that returns a fresh object.
 func baseFresh(v ssa.Value) bool {
 	for {
 		switch y := v.(type) {
@@ -45,10 +46,50 @@ func baseFresh(v ssa.Value) bool {
 			v = y.X
 		case *ssa.IndexAddr:
 			v = y.X
+		case *ssa.Call:
+			if f := y.Common().StaticCallee(); f != nil {
+				return returnsFresh(f, 0)
+			}
+			return false
 		default:
 			return false
 		}
 	}
+}
+
+var returnsFreshMemo = map[*ssa.Function]bool{}
+
+// returnsFresh: every return of fn yields (as result 0) an object allocated in fn
+// or by another constructor of this kind.
+func returnsFresh(fn *ssa.Function, depth int) bool {
+	if v, ok := returnsFreshMemo[fn]; ok {
+		return v
+	}
+	if fn.Blocks == nil || depth > 3 {
+		return false
+	}
+	res := true
+	n := 0
+	for _, b := range fn.Blocks {
+		ret, ok := lastInstr(b).(*ssa.Return)
+		if !ok || b == fn.Recover || len(ret.Results) == 0 {
+			continue
+		}
+		n++
+		switch y := retResult(ret, 0).(type) {
+		case *ssa.Alloc:
+		case *ssa.Call:
+			f := y.Common().StaticCallee()
+			if f == nil || !returnsFresh(f, depth+1) {
+				res = false
+			}
+		default:
+			res = false
+		}
+	}
+	res = res && n > 0
+	returnsFreshMemo[fn] = res
+	return res
 }
 
 // csEffects lists the writes of fn to controller-state fields.
